@@ -167,6 +167,7 @@ func runParked(res *caseResult, idx int, dir, tier string, rnd *rand.Rand) {
 		return
 	}
 	defer r.close()
+	r.arrival = true // one writer, sequential calls
 	r.n.AckHook = func(f tsdb.DataFamily, _ int64) { g.at("ack-window", familyDir(f)) }
 	// the same write and query shapes as the sequential histories (the labelling tracker follows the parked flush)
 	wg := newWriteGen(rnd, sc)
